@@ -155,7 +155,7 @@ pub fn check_program(prog: &Program, seed: u64, thorough: bool, rep: &mut Report
 pub fn run(p: &Params, rep: &mut Report) {
     let stride = if p.thorough { 1 } else { 2 };
     for_tiny_programs(p, rep, stride, p.size(150, 3000), |prog, seed, rep| check_program(prog, seed, p.thorough, rep));
-    let n = p.size(60, 600);
+    let n = p.size(120, 1200);
     for_programs(p, rep, 2, n, &STD_WEIGHTS, (20, 50), |prog, seed, rep| check_program(prog, seed, p.thorough, rep));
 }
 
